@@ -88,6 +88,21 @@ Theorem engines_agree : forall d cits minx fs, no_crossref_var fs = true ->
 Proof. exact engines_agree_l. Qed.
 Print Assumptions engines_agree.
 
+(* sensitivity (why the two fix: commits matter): without the visited test the lookup of any
+   field on  @misc{a, crossref = {a}}  exhausts every fuel (Python: RecursionError, F4) ... *)
+Theorem visited_test_needed : forall fuel,
+  find_field_unguarded fuel loop_db loop_entry (s2l "t") = OutOfFuel.
+Proof. exact unguarded_diverges_l. Qed.
+Print Assumptions visited_test_needed.
+
+(* ... and a format_bibliography that does not pass bib_data on (F5) makes the engines disagree
+   on a child inheriting its only field from the parent (a concrete instance, hence an Example) *)
+Example bib_data_needed :
+  map snd (match bst_run f5_db [s2l "c"] 2 [s2l "t"] with Ok (_, o) => o | _ => [] end) = [[Some (s2l "T")]] /\
+  map snd (match format_bibliography_nobd f5_db [s2l "c"] 2 [s2l "t"] with Ok (_, o) => o | _ => [] end) = [[None]] /\
+  map snd (match format_bibliography f5_db [s2l "c"] 2 [s2l "t"] with Ok (_, o) => o | _ => [] end) = [[Some (s2l "T")]].
+Proof. exact nobd_disagrees_l. Qed.
+
 (* ---- non-vacuity and sanity -------------------------------------------------------------- *)
 Example constants : s_crossref = s2l "crossref" /\ s_and = s2l " and " /\ s_star = s2l "*".
 Proof. vm_compute. auto. Qed.
